@@ -8,6 +8,15 @@ use vrt::{Flavour, Policy};
 
 pub const SEC: i64 = 1_000_000_000;
 
+/// ttl in nanoseconds, saturating: ttl values up to u64::MAX are legal attribute values.
+pub fn ttl_ns(t: u64) -> i64 {
+    if t > (i64::MAX / SEC) as u64 {
+        i64::MAX
+    } else {
+        t as i64 * SEC
+    }
+}
+
 #[derive(Clone, Debug, PartialEq)]
 pub struct Cfg {
     pub flavour: Flavour,
@@ -95,7 +104,7 @@ impl Cfg {
             None => Exp::MustServe,
             Some(t) => {
                 let age = now_ns - e.birth_ns;
-                let t_ns = (t as i64).saturating_mul(SEC);
+                let t_ns = ttl_ns(t);
                 if age >= t_ns {
                     Exp::MustExpire
                 } else if self.flavour != Flavour::Async {
@@ -270,8 +279,8 @@ impl Model {
                 let cls = self.cfg.exp_class(&e, now_ns);
                 if let Some(t) = self.cfg.ttl {
                     let age = now_ns - e.birth_ns;
-                    let t_ns = t as i64 * SEC;
-                    if (age - t_ns).abs() <= SEC {
+                    let t_ns = ttl_ns(t);
+                    if (age as i128 - t_ns as i128).abs() <= SEC as i128 {
                         info.near_boundary = true;
                     }
                 }
